@@ -385,8 +385,11 @@ var pinnedProbes = []pinned{
 	{"x = {get a(){}, get a(){}}", 13, false, true},
 	{"x = {0x: 1}", 16, false, true},
 	{"x = {1e+: 1}", 16, false, true},
-	{"for (x = a < b in c;;);", 18, false, true},
-	{"for (var i = 0, j = a instanceof b in c;;);", 18, false, true},
+	// fixed finding C04-noin-relational-operand (24f7b9d): regression cases, ES5 verdict expected
+	{"for (x = a < b in c;;);", 18, false, false},
+	{"for (var i = 0, j = a instanceof b in c;;);", 18, false, false},
+	{"for (x = a >= b + c in d;;);", 18, false, false},
+	{"for (x = (a < b in c);;);", 19, true, true},
 	{"x = /a/ g", 15, false, true},
 	{"x = /a/\ng", 15, false, true},
 	// fixed finding C04-switch-unterminated (ceb8c0d): regression cases, the ES5 verdict is expected now
